@@ -19,10 +19,13 @@
   e2e.h264  cfg <DisableStapA> <IsAVC> <npre> <payload>* <n> (<bare> <nunits> (<four> <nal>)* frame)*  => obs
             (`pre` = payloads the receiver was fed before the history; the frame's payload must be
              the Annex-B rendering of its units, else the case is outside the hypotheses)
+  e2e.av1   cfg <npre> <payload>* <n> (<nobus> obu* frame)*   => obs
+            (obu as in Driver/Kinds/Av1.lean; the frame's payload must be the serialisation of its OBUs)
 -/
 import Driver.Common
 import Rtp.Pred.Pipeline
 import Driver.Kinds.Vpx
+import Driver.Kinds.Av1
 namespace Rtp.Kinds.E2E
 open Rtp Rtp.Proto Rtp.Model Rtp.Model.Pipeline Rtp.Pred.Pipeline
 
@@ -122,6 +125,30 @@ theorem h264_frameIns (i : H264In) (h : i.frames.all (fun (fr, b) => b == fr.buf
   simp only [beq_iff_eq] at this
   simp [H264Frame.frameIn, this]
 
+structure AV1In where
+  pk : Packetizer
+  pre : List Bytes
+  frames : List (AV1Frame × Bytes)
+
+def rdAV1Frame : Rd (AV1Frame × Bytes) := do
+  let os ← Rd.list Rtp.Kinds.Av1.rdObu
+  let f ← rdFrame
+  pure ({ obus := os, samples := f.samples, now := f.now }, f.frame)
+
+def AV1In.frameIns (i : AV1In) : List FrameIn :=
+  i.frames.map (fun (fr, b) => { frame := b, samples := fr.samples, now := fr.now })
+
+/-- the receiver after it has been fed `pre` -/
+def AV1In.dst (i : AV1In) : AV1.DSt := (AV1.depFeed {} i.pre).2
+
+def av1 : Handler :=
+  mkHandler (do let pk ← rdCfg; let pre ← Rd.list Rd.bytes; let fs ← Rd.list rdAV1Frame
+                pure ({ pk := pk, pre := pre, frames := fs } : AV1In))
+    (Rd.list rdFrameObs)
+    (fun i => (runAV1 i.pk i.dst i.frameIns).map coarse)
+    (fun i o => histOkE i.pk i.frameIns (i.frames.map (·.1.expected)) o)
+    (fun i => wfAV1 i.pk (i.frames.map (·.1)) && i.frames.all (fun (fr, b) => b == Spec.Av1Rtp.serialise fr.obus))
+
 def handlers : List (String × Handler) :=
-  [("e2e.g711", g711), ("e2e.opus", opus), ("e2e.vp8", vp8), ("e2e.vp9", vp9), ("e2e.h264", h264)]
+  [("e2e.g711", g711), ("e2e.opus", opus), ("e2e.vp8", vp8), ("e2e.vp9", vp9), ("e2e.h264", h264), ("e2e.av1", av1)]
 end Rtp.Kinds.E2E
